@@ -33,6 +33,9 @@ import (
 
 const c12Base = uint32(1000 * 24 * 3600)
 
+// bytes 39 02 58 56: what format.ContainsCorruptedBalancerValue looks for in tag values
+const c12Sig = "9\x02XV"
+
 // ---------------------------------------------------------------------------------------------------------
 // alphabet
 
@@ -47,15 +50,20 @@ type c12Tags struct {
 	// reference facts
 	badValueUTF8 bool // some known tag has a value that is not valid UTF-8
 	badNameUTF8  bool // some tag name is not valid UTF-8
+	corrupted    bool // some known tag has a value containing the "corrupted by the balancer" signature 39 02 58 56
 	open         bool // the statement does not decide (unknown name, set twice, needs normalisation, unparsable raw value...)
 	openOnRaw    bool // open only for the metric whose tag 1 is raw
 }
 
 type c12Kind struct {
-	name     string
-	meta     *format.MetricMetaValue // nil: unknown metric
-	disabled bool
-	raw      bool
+	name       string
+	meta       *format.MetricMetaValue // nil: unknown metric
+	disabled   bool
+	raw        bool
+	badName    bool // unknown metric whose name is not valid UTF-8
+	builtin    bool // built-in metric that clients are not allowed to send
+	unroutable bool // fixed shard beyond the configured shards
+	metaLevel  bool // rejected (or diverted) before tags and values are looked at: enumerated on a reduced grid
 }
 
 type c12Event struct {
@@ -74,6 +82,7 @@ type c12Single struct {
 }
 
 type c12Alphabet struct {
+	metaLevelTags map[int]bool // tag sets used with metrics that are rejected before tags are looked at
 	counters []c12Float
 	values   [][]float64
 	uniques  [][]int64
@@ -84,8 +93,8 @@ type c12Alphabet struct {
 
 var c12Storage = data_model.NewChunkedStorageNop()
 
-func c12Meta(id int32, name string, kind string, rawTag1 bool, disabled bool) *format.MetricMetaValue {
-	m := &format.MetricMetaValue{MetricID: id, Name: name, Kind: kind, Disable: disabled, ShardFixedKey: 1,
+func c12Meta(id int32, name string, kind string, rawTag1 bool, disabled bool, shardKey uint32) *format.MetricMetaValue {
+	m := &format.MetricMetaValue{MetricID: id, Name: name, Kind: kind, Disable: disabled, ShardFixedKey: shardKey,
 		Tags: []format.MetricMetaTag{{}, {}, {}}}
 	if rawTag1 {
 		m.Tags[1].RawKind = "int"
@@ -125,6 +134,11 @@ func c12BuildAlphabet(thorough bool) *c12Alphabet {
 		{name: "over-long-value", kv: [][2]string{{"2", string(long)}}, open: true},
 		{name: "unparsable-raw", kv: [][2]string{{"1", "abc"}, {"2", "b"}}, openOnRaw: true},
 		{name: "host-and-string-top", kv: [][2]string{{"_h", "host1"}, {"_s", "top1"}, {"2", "b"}}},
+		// the signature format.ContainsCorruptedBalancerValue looks for, inside an otherwise valid value
+		{name: "corrupted-at-start", kv: [][2]string{{"1", "10"}, {"2", c12Sig + "abc"}}, corrupted: true},
+		{name: "corrupted-in-middle", kv: [][2]string{{"2", "ab" + c12Sig + "cd"}, {"1", "10"}}, corrupted: true},
+		{name: "corrupted-at-end", kv: [][2]string{{"2", "abc" + c12Sig}}, corrupted: true},
+		{name: "corrupted-and-needs-normalisation", kv: [][2]string{{"1", "10"}, {"2", "  a\tb  " + c12Sig + " c  "}}, corrupted: true},
 	}
 	if thorough {
 		a.tags = append(a.tags,
@@ -133,14 +147,42 @@ func c12BuildAlphabet(thorough bool) *c12Alphabet {
 			c12Tags{name: "legacy-name", kv: [][2]string{{"key1", "10"}}, open: true},
 			c12Tags{name: "bad-utf8-value-of-unknown-tag", kv: [][2]string{{"nosuchtag", "\xff"}}, open: true},
 			c12Tags{name: "empty-value", kv: [][2]string{{"1", ""}, {"2", "b"}}},
+			c12Tags{name: "corrupted-only", kv: [][2]string{{"2", c12Sig}}, corrupted: true},
+			c12Tags{name: "corrupted-beyond-truncation", kv: [][2]string{{"2", string(long[:150]) + c12Sig}}, corrupted: true},
+			c12Tags{name: "corrupted-host-tag", kv: [][2]string{{"_h", "h" + c12Sig}, {"2", "b"}}, corrupted: true},
+			c12Tags{name: "corrupted-string-top", kv: [][2]string{{"_s", c12Sig + "t"}}, corrupted: true},
+			c12Tags{name: "corrupted-tag-1", kv: [][2]string{{"1", "1" + c12Sig}}, corrupted: true},
+			c12Tags{name: "corrupted-and-bad-utf8", kv: [][2]string{{"2", c12Sig + "\xff"}}, corrupted: true, badValueUTF8: true},
+			c12Tags{name: "corrupted-value-of-unknown-tag", kv: [][2]string{{"nosuchtag", c12Sig}}, open: true},
+			c12Tags{name: "near-miss-signature", kv: [][2]string{{"2", "9XV 39025856"}}},
 		)
 	}
+	a.metaLevelTags = map[int]bool{}
+	for i, tg := range a.tags {
+		switch tg.name {
+		case "ok", "none", "bad-utf8-value", "corrupted-in-middle":
+			a.metaLevelTags[i] = true
+		}
+	}
 	a.kinds = []c12Kind{
-		{name: "plain", meta: c12Meta(1201, "c12_plain", format.MetricKindValue, false, false)},
-		{name: "raw-tag", meta: c12Meta(1202, "c12_raw", format.MetricKindValue, true, false), raw: true},
-		{name: "percentiles", meta: c12Meta(1203, "c12_perc", format.MetricKindValuePercentiles, false, false)},
-		{name: "disabled", meta: c12Meta(1204, "c12_disabled", format.MetricKindValue, false, true), disabled: true},
-		{name: "unknown"},
+		{name: "plain", meta: c12Meta(1201, "c12_plain", format.MetricKindValue, false, false, 1)},
+		{name: "raw-tag", meta: c12Meta(1202, "c12_raw", format.MetricKindValue, true, false, 1), raw: true},
+		{name: "percentiles", meta: c12Meta(1203, "c12_perc", format.MetricKindValuePercentiles, false, false, 1)},
+		{name: "disabled", meta: c12Meta(1204, "c12_disabled", format.MetricKindValue, false, true, 1), disabled: true, metaLevel: true},
+		{name: "unknown", metaLevel: true},
+		{name: "unknown-bad-utf8-name", badName: true, metaLevel: true},
+		{name: "unroutable", meta: c12Meta(1205, "c12_unroutable", format.MetricKindValue, false, false, 3), unroutable: true, metaLevel: true},
+	}
+	// a built-in metric that clients may not send, sharded by metric id (first by name, so the choice is stable)
+	var names []string
+	for n, m := range format.BuiltinMetricByName {
+		if !m.BuiltinAllowedToReceive && m.ShardStrategy == format.ShardByMetricID && m.ShardFixedKey == 0 && m.ShardFixedKey2 == 0 {
+			names = append(names, n)
+		}
+	}
+	sort.Strings(names)
+	if len(names) != 0 {
+		a.kinds = append(a.kinds, c12Kind{name: "builtin-not-receivable", meta: format.BuiltinMetricByName[names[0]], builtin: true, metaLevel: true})
 	}
 	return a
 }
@@ -177,6 +219,7 @@ var c12ErrCodes = map[int32]string{
 
 type c12Ref struct {
 	reasons map[int32]bool // reasons the statement gives for rejecting this event
+	soft    map[int32]bool // reasons a status record may name although the statement does not force a rejection
 	open    bool           // acceptance is not decided by the statement
 	skip    bool           // nothing is asserted (zero total weight)
 	count   float64        // if accepted
@@ -214,7 +257,7 @@ func c12ValueReasons(r map[int32]bool, v float64) {
 }
 
 func (a *c12Alphabet) reference(e c12Event, k *c12Kind) c12Ref {
-	ref := c12Ref{reasons: map[int32]bool{}}
+	ref := c12Ref{reasons: map[int32]bool{}, soft: map[int32]bool{}}
 	counter := a.counters[e.counter].v
 	values, uniques, hist, tags := a.values[e.values], a.uniques[e.uniques], a.hists[e.hist], &a.tags[e.tags]
 	c12CounterReasons(ref.reasons, counter)
@@ -230,17 +273,21 @@ func (a *c12Alphabet) reference(e c12Event, k *c12Kind) c12Ref {
 	}
 	if len(values) == 0 && len(hist) != 0 && len(uniques) != 0 {
 		// the statement speaks of "values and uniques"; whether histogram entries count as values is left open
-		ref.open = true
-		ref.reasons[format.TagValueIDSrcIngestionStatusErrValueUniqueBothSet] = true
+		ref.soft[format.TagValueIDSrcIngestionStatusErrValueUniqueBothSet] = true
 	}
 	if len(values) == 0 && len(uniques) == 0 && len(hist) == 0 && counter == 0 {
 		ref.reasons[format.TagValueIDSrcIngestionStatusErrZeroCounter] = true
 	}
-	if k.meta == nil {
+	switch {
+	case k.meta == nil && k.badName:
+		ref.reasons[format.TagValueIDSrcIngestionStatusErrMetricNameEncoding] = true
+	case k.meta == nil:
 		ref.reasons[format.TagValueIDSrcIngestionStatusErrMetricNotFound] = true
-	} else if k.disabled {
+	case k.disabled:
 		ref.reasons[format.TagValueIDSrcIngestionStatusErrMetricDisabled] = true
-	} else {
+	case k.builtin:
+		ref.reasons[format.TagValueIDSrcIngestionStatusErrMetricBuiltin] = true
+	default:
 		// tags are looked at only for a known, enabled metric
 		if tags.badValueUTF8 {
 			ref.reasons[format.TagValueIDSrcIngestionStatusErrMapTagValueEncoding] = true
@@ -248,8 +295,16 @@ func (a *c12Alphabet) reference(e c12Event, k *c12Kind) c12Ref {
 		if tags.badNameUTF8 {
 			ref.reasons[format.TagValueIDSrcIngestionStatusErrMapTagNameEncoding] = true
 		}
+		if tags.corrupted {
+			ref.reasons[format.TagValueIDSrcIngestionStatusErrMapTagValueCorrupted] = true
+		}
 		if tags.open || (tags.openOnRaw && k.raw) {
 			ref.open = true
+		}
+		if k.unroutable {
+			// the statement does not mention metrics whose shard does not exist: a status record may name this reason,
+			// and only the generic accounting invariant is required
+			ref.soft[format.TagValueIDSrcIngestionStatusErrShardingFailed] = true
 		}
 	}
 	// documented weighting
@@ -329,6 +384,9 @@ func c12NewAgent(legacy bool) *Agent {
 func c12Handle(a *Agent, alpha *c12Alphabet, e c12Event, k *c12Kind, scratch *[]byte) {
 	now := time.Unix(int64(c12Base), 0)
 	name := "c12_nosuchmetric"
+	if k.badName {
+		name = "c12_\xffnosuch"
+	}
 	if k.meta != nil {
 		name = k.meta.Name
 	}
@@ -360,7 +418,9 @@ func c12Handle(a *Agent, alpha *c12Alphabet, e c12Event, k *c12Kind, scratch *[]
 	if k.meta != nil {
 		h.MetricMeta = k.meta
 		h.Key.Metric = k.meta.MetricID
-		if k.meta.Disable {
+		if k.builtin { // fillMetricMeta: found in format.BuiltinMetricByName, !BuiltinAllowedToReceive
+			h.IngestionStatus = format.TagValueIDSrcIngestionStatusErrMetricBuiltin
+		} else if k.meta.Disable {
 			h.IngestionStatus = format.TagValueIDSrcIngestionStatusErrMetricDisabled
 		} else {
 			metaOk = true
@@ -468,17 +528,20 @@ func c12Judge(alpha *c12Alphabet, evs []c12Event, kinds []*c12Kind, rows []c12Ro
 			allReasons[r] = true
 			perReasonMax[r]++
 		}
+		for r := range ref.soft {
+			allReasons[r] = true
+			perReasonMax[r]++
+		}
 		if len(ref.reasons) != 0 {
-			if ref.open && len(ref.reasons) == 1 && ref.reasons[format.TagValueIDSrcIngestionStatusErrValueUniqueBothSet] {
-				anyOpen = true
-				mayReject++
-				continue
-			}
 			mustReject++
 			continue
 		}
-		if ref.open {
+		if ref.open || len(ref.soft) != 0 {
 			anyOpen = true
+			mayReject++
+			if kinds[i].meta == nil {
+				continue
+			}
 		}
 		id := kinds[i].meta.MetricID
 		x := metricExp[id]
@@ -623,9 +686,13 @@ func TestVerifC12(t *testing.T) {
 				for u := range alpha.uniques {
 					for h := range alpha.hists {
 						for tg := range alpha.tags {
+							if alpha.kinds[ki].metaLevel && (h > 1 || !alpha.metaLevelTags[tg]) {
+								continue // tags and histogram are never looked at for these metrics: reduced grid
+							}
 							e := c12Event{counter: c, values: v, uniques: u, hist: h, tags: tg}
 							singles = append(singles, c12Single{e, ki, false})
-							if (v != 0 || h != 0) && alpha.kinds[ki].meta != nil && !alpha.kinds[ki].disabled {
+							tgs := &alpha.tags[tg]
+							if (v != 0 || h != 0) && !alpha.kinds[ki].metaLevel && !tgs.badValueUTF8 && !tgs.badNameUTF8 && !tgs.corrupted {
 								singles = append(singles, c12Single{e, ki, true})
 							}
 						}
@@ -682,11 +749,11 @@ func TestVerifC12(t *testing.T) {
 	// pairs on one agent: accepted rows accumulate, rejected events only add status counts
 	var red []c12Single
 	for ki := 0; ki < 3; ki++ {
-		for _, c := range []int{0, 1, 2, 4, 5, 7} {
+		for _, c := range []int{0, 1, 2, 4, 5} {
 			for _, v := range []int{0, 2, 4, 5} {
 				for _, u := range []int{0, 1} {
 					for _, h := range []int{0, 1, 5} {
-						for _, tg := range []int{0, 2} {
+						for _, tg := range []int{0, 2, 10} { // valid, invalid UTF-8 value, corrupted-in-middle
 							red = append(red, c12Single{c12Event{counter: c, values: v, uniques: u, hist: h, tags: tg}, ki, false})
 						}
 					}
@@ -695,10 +762,10 @@ func TestVerifC12(t *testing.T) {
 		}
 	}
 	if !mc.Thorough() {
-		// quick: every sixth event as the first of the pair
+		// quick: every ninth event as the first of the pair
 		var r2 []c12Single
 		for i, s := range red {
-			if i%6 == 0 {
+			if i%9 == 0 {
 				r2 = append(r2, s)
 			}
 		}
